@@ -77,21 +77,22 @@ type witness struct {
 }
 
 type history struct {
-	h        *harness.H
-	layer    string
-	c        int
-	r        *prng.R
-	nNodes   int
-	validate bool
-	nSteps   int
-	script   []step // non-nil: scripted history (layer "min")
-	scenario string
-	cluster  *cluster
-	restarts bool // generate restart steps (thorough tier)
-	dead     bool // the history cannot continue (a restart failed)
-	nodes    []node.Key
-	steps    []step
-	cur      *step // the request being executed / swept (included in witnesses)
+	pastNames map[channel.Key][]string // generator: names a channel had before its renames
+	h         *harness.H
+	layer     string
+	c         int
+	r         *prng.R
+	nNodes    int
+	validate  bool
+	nSteps    int
+	script    []step // non-nil: scripted history (layer "min")
+	scenario  string
+	cluster   *cluster
+	restarts  bool // generate restart steps (thorough tier)
+	dead      bool // the history cannot continue (a restart failed)
+	nodes     []node.Key
+	steps     []step
+	cur       *step // the request being executed / swept (included in witnesses)
 
 	meta      map[channel.Key]channel.Channel // authoritative metadata at the last quiescent point
 	everSeen  map[channel.Key]string          // every key ever observed/returned -> kind
